@@ -34,6 +34,7 @@ def pieces():
         Piece(CC, r'RCP<const Number> Complex::from_mpq\(const rational_class re,', rules=TOK),
         Piece(CC, r'RCP<const Number> Complex::from_two_rats\(const Rational &re, const Rational &im\)', rules=TOK),
         Piece(CC, r'RCP<const Number> Complex::from_two_nums\(const Number &re, const Number &im\)', rules=TOK),
+        Piece(CC, r'RCP<const Number> Complex::powcomp\(const Integer &other\) const', rules=TOK),
     ]
     iin = [Piece(IH, r'inline RCP<const Number> powint\(const Integer &other\) const',
                  rules=[R('make_rcp<const Integer>(', 'integer(', n=1, why="RCP<const Integer> converts implicitly to RCP<const Number>: the stub constructor returning the Number view")] + TOK),
@@ -46,12 +47,13 @@ def pieces():
     return {'glue.inc': glue, 'integer_inline.inc': iin, 'rational_inline.inc': rin}
 
 HS = ['h_divint', 'h_powint', 'h_from_two_ints', 'h_from_mpq', 'h_rat_ops', 'h_powrat', 'h_complex_from']
+HS_ABS = HS + ['h_powcomp']
 
 def units(tier):
     big = tier == 'thorough'
     uw = ['mp_pow_ui.0:6', 'ipow.0:6']
     absu = Unit('glue_structure', 'C05', 'contracts/C05/exact.cpp', pieces(),
-                [Entry(h, defines={'EXACT_ABSTRACT': 1}, timeout=300, unwindset=uw, unwind=4, bounds="full 64-bit operands; GMP results are arbitrary canonical values") for h in HS],
+                [Entry(h, defines={'EXACT_ABSTRACT': 1}, timeout=300, unwindset=uw, unwind=4, bounds="full 64-bit operands; GMP results are arbitrary canonical values") for h in HS_ABS],
                 route='F',
                 trusted=["GMP contracts (prelude/exactnum.h): canonicalize and every mpq operator return lowest terms with positive denominator; "
                          "rational_class(n,d), mpq division require a non-zero denominator/divisor; mp_pow_ui, mp_sign, mp_abs, mp_fits_ulong_p",
@@ -65,5 +67,5 @@ def units(tier):
     return [absu, conc]
 
 def replay_args(obl, inputs, res):
-    keep = ('A.i', 'B.i', 'n', 'd', 'op', 'with_int', 'reversed', 'X.i.num', 'X.i.den', 'Y.i.num', 'Y.i.den', 'K.i', 'E.i')
+    keep = ('A.i', 'B.i', 'n', 'd', 'op', 'with_int', 'reversed', 'X.i.num', 'X.i.den', 'Y.i.num', 'Y.i.den', 'K.i', 'E.i', 'Z.imaginary_.num', 'Z.imaginary_.den')
     return [obl] + ["%s=%s" % (k, v.get("binary") or v.get("data")) for k, v in sorted(inputs.items()) if k in keep]
